@@ -242,6 +242,10 @@ for _p in ("C01", "C02", "C03", "C04", "C08", "C19"):
 PROPS["C18"]["tasks"] = PROPS["C18"]["tasks"] + ["census:json_extends-call-sites"]
 # round 8: the built-in events hand rewritten prices to `_add_order`; the side-dependent rounding happens there and nowhere else (C19 depends on what the hooks write)
 PROPS["C19"]["tasks"] = PROPS["C19"]["tasks"] + ["OrderMistakeShock.hooked_before_order", "PriceLimitRule.hooked_before_order", "PriceLimitRule.get_limited_price"]
+# round 8: "recorded values never change afterwards" is a frame clause of every market mutator, not only of the clock (C06 depends on the book-event mutators);
+# fills are observed through the logger the market was built with (C05 depends on the index market's constructor forwarding it)
+PROPS["C06"]["tasks"] = PROPS["C06"]["tasks"] + [t for t in ("Market._add_order", "Market._cancel_order", "Market._execute_orders") if t not in PROPS["C06"]["tasks"]]
+PROPS["C05"]["tasks"] = PROPS["C05"]["tasks"] + ["IndexMarket.__init__"]
 from .census import CALLERS as _CALLERS
 for _g, (_ps, _r, _t) in _CALLERS.items():
     for _p in _ps:
